@@ -186,6 +186,27 @@ Proof.
     exact Hhealth.
 Qed.
 
+(* what the ledger / solvency arguments need of a withdrawal: everything except the account-flag test and the health
+   check (shared with the deleverage withdrawal, which has no health check) *)
+Definition withdraw_core (w : hworld) (b : nat) (amount : Z) (all : bool) (hb hb' : hbank) (ac ac' : hacct) : Prop :=
+  exists bk1 i bl bk2 bl2 pre paid bk3,
+    accrue_interest (hb_b hb) (hw_pf w) (hw_now w) = Ok bk1 /\
+    wrapper_find (bank_pk b) (ha_la ac) = Ok i /\ nth_res i (ha_la ac) = Ok bl /\
+    (if all then withdraw_all bk1 bl (t64 w) = Ok (bk2, bl2, pre)
+     else pre_fee hb amount = Ok pre /\ decrease_balance bk1 bl (t64 w) (of_int pre) DecWithdrawOnly = Ok (bk2, bl2)) /\
+    paid = (if get_flag (b_flags bk2) TOKENLESS_REPAYMENTS_COMPLETE then Z.min pre (hb_vault hb) else pre) /\
+    paid <= hb_vault hb /\
+    update_bank_cache bk2 (hw_pf w) (hw_now w) = Ok bk3 /\
+    hb' = mk_hb bk3 (hb_vault hb - paid) hb /\
+    ac' = sort_acct (mkHA (set_nth i bl2 (ha_la ac)) (ha_flags ac)).
+
+Lemma withdraw_facts_core w w' a b amount all hb hb' ac ac' :
+  withdraw_facts w w' a b amount all hb hb' ac ac' -> withdraw_core w b amount all hb hb' ac ac'.
+Proof.
+  intros (bk1 & i & bl & bk2 & bl2 & pre & paid & bk3 & H1 & _ & H2 & H3 & H4 & H5 & H6 & H7 & H8 & H9 & _).
+  exists bk1, i, bl, bk2, bl2, pre, paid, bk3. repeat split; assumption.
+Qed.
+
 (* ---------------------------------------------------------------- borrow *)
 (* the origination fee is booked to the group / program fee buckets *)
 Definition book_orig_fee (pf : prog_fees) (ofee : fx) (bk3 : bank) : res bank :=
